@@ -70,6 +70,7 @@ Print Assumptions C10_fake_count.
 (* limits of the placeholder construction (not needed by the fee): keys alone repeat, and 257 placeholders collapse *)
 Theorem C10_fake_vkeys_distinct_refuted : fst (fake_wit 0) = fst (fake_wit 2).
 Proof. exact fake_vkeys_not_distinct. Qed.
+Print Assumptions C10_fake_vkeys_distinct_refuted.
 Theorem C10_fake_257_refuted : lenN (fake_vkey_witnesses 257) = 256.
 Proof. exact fake_count_257_refuted. Qed.
 Print Assumptions C10_fake_257_refuted.
